@@ -1,8 +1,8 @@
-(* C02, IfTransformer: proof that the model [PassIf.if_flatten] preserves the semantics.
+(* C02, IfTransformer: proof that the model [PassIf.if_flatten_old] preserves the semantics.
    Block simulation (DESIGN.md 5/C02): (a) rename_eval = [holds_rename]; (b),(d) no-op blocks =
    [strengthen_false]/[emit_noop]; (c) the taken block = [strengthen_true]; (e) else / no branch /
    mutually exclusive = the same lemmas ([emit_sim]).  Nested statements: mutual induction over
-   stmt/block/branches ([fl_correct]); all iterations: [if_flatten_preserves]. *)
+   stmt/block/branches ([fl_correct]); all iterations: [if_flatten_old_rule_preserves]. *)
 From Coq Require Import List String Ascii QArith Qcanon ZArith Bool Arith Lia DecimalString DecimalNat FinFun.
 From Polar Require Import Qcx Dist Syntax Sem PassGuard PassIf.
 Import ListNotations.
@@ -774,8 +774,8 @@ Section Proof.
   (* observation functions that do not read generated variables *)
   Definition blind (f : state -> Qc) : Prop := forall s t, agree s t -> f t = f s.
 
-  Theorem if_flatten_block_preserves k b l k' :
-    if_flatten k b = Some (l, k') -> wf_block b = true ->
+  Theorem if_flatten_old_rule_block_preserves k b l k' :
+    if_flatten_old k b = Some (l, k') -> wf_block b = true ->
     forall s t, agree s t -> forall f, blind f ->
       E (exec_gas law l t) f = E (exec_block law b s) f.
   Proof.
@@ -784,15 +784,15 @@ Section Proof.
     intros t' s' Hag' _. apply Hf. exact Hag'.
   Qed.
 
-  Lemma if_flatten_rel k p fp k' :
-    if_flatten_prog k p = Some (fp, k') -> wf_prog p = true ->
+  Lemma if_flatten_old_rule_rel k p fp k' :
+    if_flatten_prog_old k p = Some (fp, k') -> wf_prog p = true ->
     forall n s0 t0, agree s0 t0 -> forall g h, (forall s t, agree s t -> g t = h s) ->
       E (frun law fp n t0) g = E (run law p n s0) h.
   Proof.
-    unfold if_flatten_prog, wf_prog. intros H Hwf.
+    unfold if_flatten_prog_old, wf_prog. intros H Hwf.
     destruct (p_guard p) eqn:Eg; try discriminate.
-    destruct (if_flatten k (p_init p)) as [[li k1]|] eqn:Ei; [|discriminate].
-    destruct (if_flatten k1 (p_body p)) as [[lb k2]|] eqn:Eb; [|discriminate]. inversion H; subst fp k'. clear H.
+    destruct (if_flatten_old k (p_init p)) as [[li k1]|] eqn:Ei; [|discriminate].
+    destruct (if_flatten_old k1 (p_body p)) as [[lb k2]|] eqn:Eb; [|discriminate]. inversion H; subst fp k'. clear H.
     apply andb_true_iff in Hwf. destruct Hwf as [Hwi Hwb].
     destruct fl_correct as [_ [Hb _]].
     destruct (Hb _ _ _ _ Ei Hwi) as [_ [_ [_ Hsi]]]. destruct (Hb _ _ _ _ Eb Hwb) as [_ [_ [_ Hsb]]].
@@ -803,11 +803,11 @@ Section Proof.
       apply Hsb; [exact Hst|]. intros t' s' Hag' _. apply Hgh. exact Hag'.
   Qed.
 
-  Theorem if_flatten_preserves k p fp k' :
-    if_flatten_prog k p = Some (fp, k') -> wf_prog p = true ->
+  Theorem if_flatten_old_rule_preserves k p fp k' :
+    if_flatten_prog_old k p = Some (fp, k') -> wf_prog p = true ->
     forall n s0 t0, agree s0 t0 -> forall f, blind f ->
       E (frun law fp n t0) f = E (run law p n s0) f.
-  Proof. intros H Hwf n s0 t0 Hag f Hf. eapply if_flatten_rel; eauto. Qed.
+  Proof. intros H Hwf n s0 t0 Hag f Hf. eapply if_flatten_old_rule_rel; eauto. Qed.
 End Proof.
 
 (* ---------- the hypothesis wf_block is necessary: a source variable named _old0 is captured ---------- *)
@@ -819,11 +819,11 @@ Definition capture_state : state := fun v => if var_eqb v "_old0" then mkq 7 1 e
 
 Theorem if_flatten_without_wf_refuted :
   exists (k : nat) (b : block) (l : list gassign) (k' : nat) (s : state) (f : state -> Qc),
-    if_flatten k b = Some (l, k') /\ blind f /\ agree s s /\
+    if_flatten_old k b = Some (l, k') /\ blind f /\ agree s s /\
     E (exec_gas no_law l s) f <> E (exec_block no_law b s) f.
 Proof.
   exists 0%nat, capture_block.
-  destruct (if_flatten 0 capture_block) as [[l k']|] eqn:Efl; [|vm_compute in Efl; discriminate].
+  destruct (if_flatten_old 0 capture_block) as [[l k']|] eqn:Efl; [|vm_compute in Efl; discriminate].
   exists l, k', capture_state, (fun s => s "y").
   split; [reflexivity|]. split; [intros s t H; apply H; reflexivity|]. split; [intros x _; reflexivity|].
   vm_compute in Efl. inversion Efl; subst l k'. clear Efl.
